@@ -18,12 +18,14 @@ func checkC02(c *Ctx) {
 	c.Rule("C02.R3", "identity immutability: UPDATE SET lists ⊆ lifecycle columns; no store to Envelope id/route/target/payload/headers/trace through a stored item")
 	c.Rule("C02.R4", "memory: no path from a (non-maintenance, non-expiry) mutation of the item table to an error return; SQL: at most one autocommit mutation per path outside transactions")
 	c.Rule("C02.R5", "memory: every access to a mutable MemoryStore field happens with the store mutex held (helpers inherit the lockset of all call sites)")
+	c.Rule("C02.R6", "from-set of the by-id settle statements: SQL statements that change state keyed only by item id (C02.R2 accepts them inside a transaction) draw their ids from a lease lookup whose state = 'leased' and not-expired tests dominate every accept point, so their from-set is {leased} (same analysis as C04.R1, claimed here because the legality of those edges depends on it)")
 	checkTransitionTable(c, "C02.R1", "memory", nil)
 	checkTransitionTable(c, "C02.R2", "sqlite", nil)
 	checkTransitionTable(c, "C02.R2", "postgres", nil)
 	checkIdentityImmutable(c, "C02.R3")
 	checkFailedOpEffectFree(c, "C02.R4", nil)
 	checkMemoryLocking(c, "C02.R5")
+	checkSQLFencing(c, "C02.R6")
 }
 
 func transOf(p *Program, backend string) []Trans {
@@ -65,7 +67,7 @@ func checkTransitionTable(c *Ctx, rule, backend string, filter func(Trans) bool)
 			}
 			legalTarget := t.Kind == "delete" || t.To == "queued" || t.To == "delivered" || t.To == "dead"
 			if in && idOnly && legalTarget {
-				c.Ok(rule, t.Key, t.Pos, fmt.Sprintf("by-id settle statement without state conjunct, inside a transaction (%s); the id filter is decided by C04.R1", why))
+				c.Ok(rule, t.Key, t.Pos, fmt.Sprintf("by-id settle statement without state conjunct, inside a transaction (%s); the id filter is decided by C02.R6", why))
 			} else {
 				c.Fail(rule, t.Key, t.Pos, fmt.Sprintf("%s to %q without a state guard in its WHERE and not (by-id inside a transaction): %s", t.Kind, t.To, why))
 			}
